@@ -284,6 +284,15 @@ def gen_set_elems(rng, prof, depth):
         if kind == "str":
             return _uniq([["str", gen_str(rng, prof, long_ok=False)] for _ in range(n)])
         return _uniq([["int", rng.randint(-5, 40)] for _ in range(n)])
+    r = rng.random()
+    if r < 0.3:
+        # several frozensets (only partially ordered by <) of strings
+        return _uniq([["frozenset", _uniq([["str", rng.choice("abcdefgh") * rng.randint(1, 2)] for _ in range(rng.randint(0, 3))])] for _ in range(rng.randint(2, 4))])
+    if r < 0.45:
+        # tuples that carry a frozenset of strings, next to an element that makes the set unorderable
+        return _uniq([["none"]] + [["tuple", [["str", rng.choice("xyz")], ["frozenset", _uniq([["str", rng.choice("klmnop")] for _ in range(rng.randint(2, 3))])]]] for _ in range(rng.randint(2, 3))])
+    if r < 0.6:
+        return _uniq([["none"], ["str", gen_str(rng, prof, long_ok=False)], ["int", rng.randint(0, 9)], ["bytes", "ab"], ["enum", rng.choice(ENUMS)], ["tuple", [["int", 1]]]][: max(2, n)])
     return _uniq([gen_hashable(rng, prof, depth) for _ in range(n)])
 
 
